@@ -18,8 +18,8 @@ theorem processValues_raised {st : FixSt} (h : st.raised = true) : ∀ vs, proce
 theorem fixNodeName_raised {st : FixSt} (h : st.raised = true) (n : Nat) : fixNodeName st n = st := by
   unfold fixNodeName; simp [h]
 
-theorem enterGraph_raised {st : FixSt} (h : st.raised = true) (g : Nat) (isG : Bool) (ins outs : List Nat) :
-    enterGraph st g isG ins outs = st := by
+theorem enterGraph_raised {st : FixSt} (h : st.raised = true) (g : Nat) (isG : Bool) (ins outs bouts : List Nat) :
+    enterGraph st g isG ins outs bouts = st := by
   unfold enterGraph; simp [h]
 
 theorem exitGraph_raised {st : FixSt} (h : st.raised = true) : exitGraph st = st := by
@@ -87,21 +87,21 @@ theorem processValues_NEq : ∀ (vs : List Nat) (st : FixSt), NEq st (processVal
     rw [this]
     exact (processValue_NEq st v).trans (processValues_NEq vs _)
 
-theorem enterGraph_nodes {st : FixSt} (h : st.raised = false) (g : Nat) (isG : Bool) (ins outs : List Nat) :
-    (enterGraph st g isG ins outs).nname = st.nname ∧ (enterGraph st g isG ins outs).nstack = [] :: st.nstack
-    ∧ (enterGraph st g isG ins outs).ncnt = st.ncnt ∧ (enterGraph st g isG ins outs).resN = st.resN := by
+theorem enterGraph_nodes {st : FixSt} (h : st.raised = false) (g : Nat) (isG : Bool) (ins outs bouts : List Nat) :
+    (enterGraph st g isG ins outs bouts).nname = st.nname ∧ (enterGraph st g isG ins outs bouts).nstack = [] :: st.nstack
+    ∧ (enterGraph st g isG ins outs bouts).ncnt = st.ncnt ∧ (enterGraph st g isG ins outs bouts).resN = st.resN := by
   rw [enterGraph_eq h]
   have e1 := processValues_NEq ins (pushScope st)
   have e2 := processValues_NEq outs (processValues (pushScope st) ins)
   cases isG with
   | false =>
     simp only [Bool.false_eq_true, if_false]
-    have e := e1.trans e2
+    have e := (e1.trans e2).trans (processValues_NEq bouts _)
     exact ⟨e.nname, e.nstack, e.ncnt, e.resN⟩
   | true =>
     simp only [if_true]
-    have e := (e1.trans e2).trans (processValues_NEq (((processValues (processValues (pushScope st) ins) outs).dicts g).map (·.2))
-      (processValues (processValues (pushScope st) ins) outs))
+    have e := ((e1.trans e2).trans (processValues_NEq (((processValues (processValues (pushScope st) ins) outs).dicts g).map (·.2))
+      (processValues (processValues (pushScope st) ins) outs))).trans (processValues_NEq bouts _)
     exact ⟨e.nname, e.nstack, e.ncnt, e.resN⟩
 
 /-! ### the node-name invariant -/
@@ -348,16 +348,16 @@ theorem runTr_nodes {c : NCfg} : ∀ (t : Tr) {st : FixSt} {N : List Nat},
     simp only [runTr] at hfin ⊢
     simp only [allNodes, List.nodup_append] at hnd
     obtain ⟨hnd_b, hnd_r, hdisj⟩ := hnd
-    have h5 : (exitGraph (exitGraph (runTr body (enterGraph (enterGraph st g isG ins outs) g isG ins outs)))).raised = false :=
+    have h5 : (exitGraph (exitGraph (runTr body (enterGraph (enterGraph st g isG ins outs (bodyOuts body)) g isG ins outs (bodyOuts body))))).raised = false :=
       raised_of (fun s h => runTr_raised rest h) hfin
     have h4 := raised_of (fun s h => exitGraph_raised h) h5
     have h3 := raised_of (fun s h => exitGraph_raised h) h4
     have h2 := raised_of (fun s h => runTr_raised body h) h3
-    have h1 := raised_of (fun s h => enterGraph_raised h g isG ins outs) h2
-    have h0 := raised_of (fun s h => enterGraph_raised h g isG ins outs) h1
-    obtain ⟨n1, k1, _, r1⟩ := enterGraph_nodes h0 g isG ins outs
-    obtain ⟨n2, k2, _, r2⟩ := enterGraph_nodes h1 g isG ins outs
-    have g2 : NGood c (enterGraph (enterGraph st g isG ins outs) g isG ins outs) [] :=
+    have h1 := raised_of (fun s h => enterGraph_raised h g isG ins outs (bodyOuts body)) h2
+    have h0 := raised_of (fun s h => enterGraph_raised h g isG ins outs (bodyOuts body)) h1
+    obtain ⟨n1, k1, _, r1⟩ := enterGraph_nodes h0 g isG ins outs (bodyOuts body)
+    obtain ⟨n2, k2, _, r2⟩ := enterGraph_nodes h1 g isG ins outs (bodyOuts body)
+    have g2 : NGood c (enterGraph (enterGraph st g isG ins outs (bodyOuts body)) g isG ins outs (bodyOuts body)) [] :=
       { inj := fun a ha => by simp at ha, named := fun a ha => by simp at ha, kept := fun a ha => by simp at ha
         top_iff := fun s => by rw [k2]; simp [topOf]
         gen := fun a ha => by simp at ha }
@@ -366,12 +366,12 @@ theorem runTr_nodes {c : NCfg} : ∀ (t : Tr) {st : FixSt} {N : List Nat},
       (fun m hm => hcol m (by simp [allNodes, hm]))
     obtain ⟨n4, k4, r4⟩ := exitGraph_nodes h3
     obtain ⟨n5, k5, r5⟩ := exitGraph_nodes h4
-    have hname5 : ∀ m, (exitGraph (exitGraph (runTr body (enterGraph (enterGraph st g isG ins outs) g isG ins outs)))).nname m
-        = (runTr body (enterGraph (enterGraph st g isG ins outs) g isG ins outs)).nname m := by
+    have hname5 : ∀ m, (exitGraph (exitGraph (runTr body (enterGraph (enterGraph st g isG ins outs (bodyOuts body)) g isG ins outs (bodyOuts body))))).nname m
+        = (runTr body (enterGraph (enterGraph st g isG ins outs (bodyOuts body)) g isG ins outs (bodyOuts body))).nname m := by
       intro m; rw [n5, n4]
-    have hstk5 : (exitGraph (exitGraph (runTr body (enterGraph (enterGraph st g isG ins outs) g isG ins outs)))).nstack = st.nstack := by
+    have hstk5 : (exitGraph (exitGraph (runTr body (enterGraph (enterGraph st g isG ins outs (bodyOuts body)) g isG ins outs (bodyOuts body))))).nstack = st.nstack := by
       rw [k5, k4, t3, k2, k1]; rfl
-    have g5 : NGood c (exitGraph (exitGraph (runTr body (enterGraph (enterGraph st g isG ins outs) g isG ins outs)))) N :=
+    have g5 : NGood c (exitGraph (exitGraph (runTr body (enterGraph (enterGraph st g isG ins outs (bodyOuts body)) g isG ins outs (bodyOuts body))))) N :=
       good.of_eq (fun m hm => by
         have : m ∉ allNodes body := fun h => (hfresh m (by simp [allNodes, h])).1 hm
         rw [hname5, f3 m this, n2, n1]) (by rw [hstk5])
@@ -388,8 +388,8 @@ theorem runTr_nodes {c : NCfg} : ∀ (t : Tr) {st : FixSt} {N : List Nat},
     · intro L hL
       simp only [allNodeScopes, List.mem_cons, List.mem_append] at hL
       have key : ∀ L', (∀ m ∈ L', m ∈ allNodes body) →
-          NScopeOK c (runTr body (enterGraph (enterGraph st g isG ins outs) g isG ins outs)) L' →
-          NScopeOK c (runTr rest (exitGraph (exitGraph (runTr body (enterGraph (enterGraph st g isG ins outs) g isG ins outs))))) L' := by
+          NScopeOK c (runTr body (enterGraph (enterGraph st g isG ins outs (bodyOuts body)) g isG ins outs (bodyOuts body))) L' →
+          NScopeOK c (runTr rest (exitGraph (exitGraph (runTr body (enterGraph (enterGraph st g isG ins outs (bodyOuts body)) g isG ins outs (bodyOuts body)))))) L' := by
         intro L' hsub hok
         refine hok.of_eq (fun m hm => ?_)
         rw [f6 m (fun h => hdisj m (hsub m hm) m h rfl), hname5]
@@ -410,8 +410,8 @@ theorem fixTop_nodes {w : World} {t : Top} (hnr : (fixTop w t).raised = false) (
   have h2 := raised_of (fun s h => exitGraph_raised h) hnr
   have h1 := raised_of (fun s h => runTr_raised t.body h) h2
   have h0 : (topInit w t).raised = false := rfl
-  obtain ⟨n1, k1, _, r1⟩ := enterGraph_nodes h0 t.gid t.isGraph t.ins t.outs
-  have g1 : NGood (topNCfg w t) (enterGraph (topInit w t) t.gid t.isGraph t.ins t.outs) [] :=
+  obtain ⟨n1, k1, _, r1⟩ := enterGraph_nodes h0 t.gid t.isGraph t.ins t.outs (bodyOuts t.body)
+  have g1 : NGood (topNCfg w t) (enterGraph (topInit w t) t.gid t.isGraph t.ins t.outs (bodyOuts t.body)) [] :=
     { inj := fun a ha => by simp at ha, named := fun a ha => by simp at ha, kept := fun a ha => by simp at ha
       top_iff := fun s => by rw [k1]; simp [topOf]
       gen := fun a ha => by simp at ha }
